@@ -6,7 +6,7 @@ TECHNIQUE = "machine-checked proof in Coq + model/code correspondence check"
 LEVEL_TEXT = "proof: both back-end models refine the abstract ordered-mailbox store on EVERY history, observations and events by handle — the memory-store model for every cap and size limit (cap loop with first/last and the size enforcer as coded; its crash outcome is unreachable), the file-store model for every cap under the id-freshness hypothesis, which is itself derived from the environment assumption 'fewer than 10 000 deliveries per wall-clock second'; hence backends_equivalent for every cap, and list_oldest_first, latest_is_last, ids_not_reused, read_back_as_written, missing_is_not_exist, remove_only_named. The id generation of the file store where fix 0010 lives (hasID loop on taken candidate ids, incl. the counter wrap 9999->0000) is compared with FileStore.gen_loop by the collide stream (ids planted in the on-disk index). The tie of the models to /repo is the correspondence check (1000 histories per run on the real stores; the verdict is the extracted spec applied to what the implementation answered)."
 LEVEL_NOTE = "models: coq/Model/MemStore.v, FileStore.v (as coded after fixes 0003 0004 0005 0006 0010), StoreSpec.v; tie to /repo: go/cmd/c07 runs the same histories on the real mem and file stores, the verdict is StoreSpec.run_spec applied to what the implementation answered; list_oldest_first, ids_not_reused, remove_only_named and missing_is_not_exist are facts about the abstract store (StoreSpec) that the refinement theorems carry to both back-end models operation by operation; facts about the back-ends' own state are exported separately: ids_distinct (ids returned by the deliveries to a mailbox are pairwise distinct), missing_is_not_exist_backends, latest_is_last(_file), read_back_as_written(_file), and the kernel-evaluated 21-operation instance backends_equivalent_instance; tied to the source by the translator (go/cmd/pins/c07.go -> coq/Gen/StorePins.v, regenerated on every run): the file store id format / counter / path scheme (file_id_format_pinned), the functions that remove messages and those that emit the after-events (removal_paths_emit: every removal path of either store announces what it removes; AfterMessageStored is emitted by StoreManager.Deliver only), the order of the steps of the delivery paths (add_steps_pinned); ids_are_literal: only the literal rendering of an id names its message (the spelling family of the generator is its check side)"
 RULE = ("random operation histories (4-60 ops, 1-5 mailboxes incl. names sharing a 12-bit SHA-1 prefix, '@', special characters and spellings that differ only in letter case (different mailboxes); "
-        "characters; missing / not-yet-issued / bogus / 'latest' handles and other SPELLINGS of a live id (leading zeros, sign, blanks, letter case: they name no message), double removes, purge-then-latest) on a fresh real "
+        "characters; missing / not-yet-issued / bogus / 'latest' handles and other SPELLINGS of a live id (18 variants: leading zeros, sign, blanks, TAB, letter case, path decorations x/ID ./ID ID/ ../ID ID/. ID/../ID x/latest, NUL or newline appended, the id doubled: they name no message), double removes, purge-then-latest) on a fresh real "
         "memory store and a fresh real file store; distinct = distinct input line; non-trivial = at least one add and one "
         "operation on a stored message; plus 12 file-store histories whose first deliveries straddle the wrap of the id counter within one second (arrival order is not id order; planted in the on-disk index) and the collide cases; plus 33 histories on both stores with content sizes from {0, 1, 100, 4095, 4096, 4097, 65535, 65536, 65537, 200000, ~1 MiB} (content derived from the tag to exactly that size; every Get/listing/visit re-reads and compares the full content of every message it returns, all live messages again at the end); plus 60 histories on both stores ending in a VisitMailboxes whose visitor returns false at its k-th non-empty mailbox (half of them removing the oldest message of each mailbox handed over): exactly min(k, non-empty mailboxes) are handed over, the visitor is never called again; EVERY visit retains the messages it is handed and reads their mailbox, id, size, seen flag and full content only after VisitMailboxes has returned; plus 24 histories on both stores with long and odd METADATA as a function of the tag (subjects of 0..70000 octets, multi-byte characters straddling octets 998/1024/4096, invalid UTF-8, NUL, CR/LF/TAB, long and odd From names, To lists of 0..500 addresses, sub-second parts, non-UTC zones, instants from year 1 to 9999), every field compared with what was written (dates by instant); plus 50 histories on both stores with listings the caller keeps (h) and reads again at the end (c) after later operations on other mailboxes and on their own")
 TRUSTED = ["handles: messages are named by 'k-th add to this mailbox' / 'latest' / a bogus literal; the driver's id<->handle table (Go map) is modelled by StoreSpecImpl.run_impl", 'message content is abstracted to (date, tag, size, seen): the driver checks that from/to/subject/body/mailbox read back equal what the add with that handle wrote and prints the tag only then', 'VisitMailboxes enumeration order (map / readdir order) is not compared: groups are sorted by mailbox on both sides; empty groups are dropped', 'file store: byte-level disk protocol (tmp+rename, unlink order, gob) is not in this model (C10/C11); I/O errors are not modelled', 'memory store: the size enforcer goroutine is modelled as a synchronous sub-step (callers block on md.done); creation of an empty mailbox record by reads is not modelled (unobservable)', 'the order of the deleted events of ONE PurgeMessages is not compared (map iteration order in the memory store): the driver sorts them by handle', 'within one operation the driver prints the deleted events before the stored event (two brokers; order across them is observed at operation granularity only)']
